@@ -109,18 +109,28 @@ var commentTexts = []string{"# a comment", "#", "# type user", "#define x: [y]",
 
 // nl: a NEWLINE site. Ends the current line (optionally with trailing blanks and a trailing
 // comment), then emits optional blank / comment lines, then the indentation of the next line.
-func (l *Layout) nl(indent int, allowComments bool) {
-	if l.rng != nil {
-		if l.Extra && l.coin(5) {
+// trail decorates the end of a code line: trailing blanks, a tab (only where a NEWLINE token follows to
+// swallow it), and a trailing comment separated from the code by one or several spaces.
+func (l *Layout) trail(allowComments, tabOK bool) {
+	if l.rng == nil {
+		return
+	}
+	if l.Extra && l.coin(5) {
+		l.w(strings.Repeat(" ", 1+l.rng.Intn(3)))
+	}
+	if tabOK && l.Tabs && l.coin(8) {
+		l.w("\t")
+	}
+	if l.Comments && allowComments && l.coin(5) {
+		l.w(" " + commentTexts[l.rng.Intn(len(commentTexts))])
+		if l.coin(3) {
 			l.w(strings.Repeat(" ", 1+l.rng.Intn(2)))
 		}
-		if l.Tabs && l.coin(8) {
-			l.w("\t") // a tab before the line end is swallowed by NEWLINE
-		}
-		if l.Comments && allowComments && l.coin(5) {
-			l.w(" " + commentTexts[l.rng.Intn(len(commentTexts))])
-		}
 	}
+}
+
+func (l *Layout) nl(indent int, allowComments bool) {
+	l.trail(allowComments, true)
 	l.lines = append(l.lines, l.cur.String())
 	l.cur.Reset()
 	if l.rng != nil {
@@ -398,6 +408,8 @@ func RenderL(m *Model, rng *rand.Rand) (string, *Layout) {
 	if rng == nil {
 		l.nl(0, false)
 	} else {
+		// the last code line can carry trailing blanks and a comment too (no tab: no NEWLINE follows)
+		l.trail(true, false)
 		for l.coin(2) {
 			if l.Comments && rng.Intn(2) == 0 {
 				l.lines = append(l.lines, l.cur.String())
